@@ -3,7 +3,7 @@
 
 use crate::core::{as_count, dbg, fit_core, guard_core, ignore, CountDist, CountRng, Ctx, Glue, Probe};
 use crate::data;
-use crate::spec::{p, p32, Dom::*, Expect};
+use crate::spec::{opt, p, p32, Dom::*, Expect};
 use crate::{no_cross, no_narrow, Builder};
 use linfa::dataset::DatasetBase;
 use linfa::traits::{Fit, FitWith, Transformer};
@@ -40,6 +40,7 @@ pub fn assumptions() -> Vec<String> {
         "a training failure that depends on the data (power method not converged, Platt not converged, JL dimension larger than the feature count) is an accepted outcome when the unchecked builder and the checked form fail with the same text",
         "history cases: a builder is configured with a first assignment, one of {check_ref, check on a copy, the training entry point} runs on it (outcome ignored), then the same builder (or a clone taken afterwards) is re-configured through its setters; verdict, error text, checked value, builder equality and training result must equal those of a fresh builder configured directly with the second assignment. Parameters that can only be given to the constructor (k-means / GMM n_clusters, DBSCAN / OPTICS min_points) are equal in both assignments. The first training run only happens when the first assignment lies in the trainable intervals",
         "SVM history cases with an odd seed: the first life selects the other of the two mutually exclusive variants (Nu 0.4 resp. C weights (7, 3), always valid) with the solver eps / Platt values of the first assignment; the setter under test must displace it (checked value: the other variant must read back as None, as the setters' code and the 'either C or Nu' docs promise). The valid/invalid label of the first assignment of those cases refers to the row's own table and is approximate for the non-trivial count",
+        "enum / bool valued builder options are extra dimensions of every row that has them (k-means init method, DBSCAN / OPTICS nearest-neighbour algorithm, GMM init method, elastic-net / logistic with_intercept, Tweedie link and fit_intercept, SVM kernel and shrinking, tree split quality and max depth, hierarchical linkage method, PLS algorithm and scale, FastICA gfunc, count vectoriser convert_to_lowercase and normalize); they have no range of their own, the expected verdict comes from the numeric table only, i.e. it must be independent of them. No doc comment states a cross-constraint between an option and a numeric range (PLS: 'max_iterations ... when algorithm=Nipals. Ignored otherwise' says the value is ignored, not that it is unchecked). Training is not run with SVM shrinking (C13's subject) nor with an explicit identity / logit Tweedie link",
         "count vectoriser tokenizer parameter: 0 = default regex, 1 = the regex \\b[^ ][^ ]+\\b, 2 = the invalid regex '[' (documented: 'Returns an error if the regex expression for the split is invalid'), 3 = a function tokenizer",
         "linfa_clustering::AppxDbscan is an alias of Dbscan in the pinned tree (its own hyperparams module is not compiled), so it has no separate row",
     ]
@@ -88,7 +89,8 @@ macro_rules! run_fit {
 mod clustering {
     use super::*;
     use linfa_clustering::{
-        Dbscan, DbscanParams, GaussianMixtureModel, GmmError, GmmParams, IncrKMeansError, KMeans, KMeansError, KMeansParams, Optics,
+        Dbscan, DbscanParams, GaussianMixtureModel, GmmError, GmmInitMethod, GmmParams, IncrKMeansError, KMeans, KMeansError, KMeansInit,
+        KMeansParams, Optics,
         OpticsParams,
     };
     use linfa_nn::CommonNearestNeighbour;
@@ -102,6 +104,8 @@ mod clustering {
                     p("n_runs", CountGe(1), 10.0, &[3.0], (1.0, 10.0)),
                     p("tolerance", Gt(0.0), 1e-4, &[0.37], (TINY, 10.0)),
                     p("max_n_iterations", CountGe(1), 300.0, &[7.0], (1.0, 300.0)),
+                    // 0 k-means++, 1 random, 2 k-means||, 3 precomputed centroids (n_clusters rows of the data)
+                    opt("init_method", 4, 3.0),
                 ],
                 ctor: &[0],
                 cross: no_cross,
@@ -113,6 +117,8 @@ mod clustering {
                 params: vec![
                     p("min_points", CountGe(2), 3.0, &[5.0], (2.0, 8.0)),
                     p("tolerance", Gt(0.0), 1e-4, &[0.8], (TINY, 10.0)),
+                    // 0 k-d tree (default), 1 linear search, 2 ball tree
+                    opt("nn_algo", 3, 2.0),
                 ],
                 ctor: &[0],
                 cross: no_cross,
@@ -124,6 +130,7 @@ mod clustering {
                 params: vec![
                     p("min_points", CountGe(2), 3.0, &[5.0], (2.0, 8.0)),
                     p("tolerance", Gt(0.0), 3.0, &[0.8], (TINY, 10.0)),
+                    opt("nn_algo", 3, 2.0),
                 ],
                 ctor: &[0],
                 cross: no_cross,
@@ -138,6 +145,8 @@ mod clustering {
                     p("reg_covar", GeAmb(0.0), 1e-6, &[1e-3], (1e-9, 1.0)),
                     p("n_runs", CountGe(1), 1.0, &[3.0], (1.0, 3.0)),
                     p("max_n_iterations", CountGe(1), 100.0, &[7.0], (1.0, 100.0)),
+                    // 0 k-means initialisation, 1 random (the covariance type has a single variant, Full, which is set explicitly)
+                    opt("init_method", 2, 1.0),
                 ],
                 ctor: &[0],
                 cross: no_cross,
@@ -153,7 +162,21 @@ mod clustering {
         let (rp, dp) = (Probe::new(), Probe::new());
         let ds = DatasetBase::from(data::blobs(cx.seed, 12, 2));
         let base = |v: &[f64]| -> P { KMeans::params_with(cnt(v, 0), CountRng::new(cx.seed, &rp), CountDist(dp.clone())) };
-        let set = |b: P, v: &[f64]| b.n_runs(cnt(v, 1)).tolerance(at(v, 2)).max_n_iterations(cnt(v, 3) as u64);
+        let x0 = data::blobs(cx.seed, 12, 2);
+        let set = |b: P, v: &[f64]| {
+            let init = match cnt(v, 4) {
+                0 => KMeansInit::KMeansPlusPlus,
+                1 => KMeansInit::Random,
+                2 => KMeansInit::KMeansPara,
+                _ => {
+                    // every other row first, so that the centroids come from both blobs
+                    let k = cnt(v, 0).min(12);
+                    let rows: Vec<usize> = (0..k).map(|i| (i * 7) % 12).collect();
+                    KMeansInit::Precomputed(x0.select(ndarray::Axis(0), &rows))
+                }
+            };
+            b.n_runs(cnt(v, 1)).tolerance(at(v, 2)).max_n_iterations(cnt(v, 3) as u64).init_method(init)
+        };
         let g = Glue {
             cx, stale: None, first_set: None,
             base: &base,
@@ -190,10 +213,10 @@ mod clustering {
         );
     }
 
-    fn nn(seed: u64) -> CommonNearestNeighbour {
-        match seed % 3 {
-            0 => CommonNearestNeighbour::LinearSearch,
-            1 => CommonNearestNeighbour::KdTree,
+    fn nn(k: usize) -> CommonNearestNeighbour {
+        match k {
+            0 => CommonNearestNeighbour::KdTree,
+            1 => CommonNearestNeighbour::LinearSearch,
             _ => CommonNearestNeighbour::BallTree,
         }
     }
@@ -202,8 +225,8 @@ mod clustering {
         type P = DbscanParams<f64, CountDist, CommonNearestNeighbour>;
         let dp = Probe::new();
         let x = data::blobs(cx.seed, 12, 2);
-        let base = |v: &[f64]| -> P { Dbscan::params_with(cnt(v, 0), CountDist(dp.clone()), nn(cx.seed)) };
-        let set = |b: P, v: &[f64]| b.tolerance(at(v, 1));
+        let base = |v: &[f64]| -> P { Dbscan::params_with(cnt(v, 0), CountDist(dp.clone()), nn(0)) };
+        let set = |b: P, v: &[f64]| b.tolerance(at(v, 1)).nn_algo(nn(cnt(v, 2)));
         let g = Glue { cx, stale: None, first_set: None, base: &base, set: &set, clone: Some(&|b| b.clone()), touch: &|b| ignore(|| b.transform(&x)) };
         let Some((v, hb)) =
             guard_core(obs, &g, Some(&eq), Some(&eq), Some(&|c| vec![c.minimum_points() as f64, c.tolerance()]))
@@ -217,8 +240,8 @@ mod clustering {
         type P = OpticsParams<f64, CountDist, CommonNearestNeighbour>;
         let dp = Probe::new();
         let x = data::blobs(cx.seed, 12, 2);
-        let base = |v: &[f64]| -> P { Optics::params_with(cnt(v, 0), CountDist(dp.clone()), nn(cx.seed)) };
-        let set = |b: P, v: &[f64]| b.tolerance(at(v, 1));
+        let base = |v: &[f64]| -> P { Optics::params_with(cnt(v, 0), CountDist(dp.clone()), nn(0)) };
+        let set = |b: P, v: &[f64]| b.tolerance(at(v, 1)).nn_algo(nn(cnt(v, 2)));
         let g = Glue { cx, stale: None, first_set: None, base: &base, set: &set, clone: Some(&|b| b.clone()), touch: &|b| ignore(|| b.transform(x.view())) };
         let Some((v, hb)) =
             guard_core(obs, &g, Some(&eq), Some(&eq), Some(&|c| vec![c.minimum_points() as f64, c.tolerance()]))
@@ -234,7 +257,12 @@ mod clustering {
         let ds = DatasetBase::from(data::blobs(cx.seed, 16, 2));
         let base = |v: &[f64]| -> P { GaussianMixtureModel::params_with_rng(cnt(v, 0), CountRng::new(cx.seed, &rp)) };
         let set = |b: P, v: &[f64]| {
-            b.tolerance(at(v, 1)).reg_covariance(at(v, 2)).n_runs(cnt(v, 3) as u64).max_n_iterations(cnt(v, 4) as u64)
+            b.tolerance(at(v, 1))
+                .reg_covariance(at(v, 2))
+                .n_runs(cnt(v, 3) as u64)
+                .max_n_iterations(cnt(v, 4) as u64)
+                .init_method(if cnt(v, 5) == 0 { GmmInitMethod::KMeans } else { GmmInitMethod::Random })
+                .covariance_type(linfa_clustering::GmmCovarType::Full)
         };
         let g = Glue {
             cx, stale: None, first_set: None,
@@ -272,6 +300,8 @@ mod linear {
             p("tolerance", GeAmb(0.0), 1e-4, &[1e-2], (1e-8, 1.0)),
             // range table says [1, inf) but the documented error list has no entry for it: ambiguous below 1
             p("max_iterations", CountGeAmbBelow(1), 1000.0, &[50.0], (1.0, 1000.0)),
+            // 0 with intercept (default), 1 without
+            opt("with_intercept", 2, 1.0),
         ]
     }
     fn logistic_params() -> Vec<crate::spec::ParamSpec> {
@@ -279,6 +309,7 @@ mod linear {
             // "alpha must be a positive, finite number" while 0 is accepted: ambiguous at 0
             p("alpha", GeAmb(0.0), 1.0, &[0.1], (1e-6, 10.0)),
             p("gradient_tolerance", Gt(0.0), 1e-4, &[1e-2], (1e-8, 1.0)),
+            opt("with_intercept", 2, 1.0),
         ]
     }
 
@@ -307,6 +338,10 @@ mod linear {
                 params: vec![
                     p("alpha", Ge(0.0), 1.0, &[0.1], (0.0, 10.0)),
                     p("power", NotOpen(0.0, 1.0), 1.0, &[1.5, 2.0, 3.0], (0.0, 3.0)),
+                    // 0 link chosen from the power (default), 1 identity, 2 log, 3 logit. The docs state no power x link
+                    // constraint for checking; training runs with the automatic link and with log (targets are positive)
+                    opt("link", 4, 0.0),
+                    opt("fit_intercept", 2, 1.0),
                 ],
                 ctor: NONE,
                 cross: no_cross,
@@ -318,7 +353,7 @@ mod linear {
 
     run_fit!(enet, ElasticNetError,
         base: |_: &[f64]| ElasticNetParams::<f64>::new(),
-        set: |b: ElasticNetParams<f64>, v: &[f64]| b.penalty(at(v, 0)).l1_ratio(at(v, 1)).tolerance(at(v, 2)).max_iterations(cnt(v, 3) as u32),
+        set: |b: ElasticNetParams<f64>, v: &[f64]| b.penalty(at(v, 0)).l1_ratio(at(v, 1)).tolerance(at(v, 2)).max_iterations(cnt(v, 3) as u32).with_intercept(cnt(v, 4) == 0),
         read: Some(&|c| vec![c.penalty(), c.l1_ratio(), c.tolerance(), c.max_iterations() as f64]),
         data: |cx: &Ctx| {
             let x = data::blobs(cx.seed, 10, 2);
@@ -329,7 +364,7 @@ mod linear {
 
     run_fit!(mt_enet, ElasticNetError,
         base: |_: &[f64]| MultiTaskElasticNetParams::<f64>::new(),
-        set: |b: MultiTaskElasticNetParams<f64>, v: &[f64]| b.penalty(at(v, 0)).l1_ratio(at(v, 1)).tolerance(at(v, 2)).max_iterations(cnt(v, 3) as u32),
+        set: |b: MultiTaskElasticNetParams<f64>, v: &[f64]| b.penalty(at(v, 0)).l1_ratio(at(v, 1)).tolerance(at(v, 2)).max_iterations(cnt(v, 3) as u32).with_intercept(cnt(v, 4) == 0),
         read: Some(&|c| vec![c.penalty(), c.l1_ratio(), c.tolerance(), c.max_iterations() as f64]),
         data: |cx: &Ctx| {
             let x = data::blobs(cx.seed, 10, 2);
@@ -342,21 +377,29 @@ mod linear {
 
     run_fit!(logistic, linfa_logistic::error::Error,
         base: |_: &[f64]| LogisticRegression::<f64>::new().max_iterations(30),
-        set: |b: LogisticRegression<f64>, v: &[f64]| b.alpha(at(v, 0)).gradient_tolerance(at(v, 1)),
+        set: |b: LogisticRegression<f64>, v: &[f64]| b.alpha(at(v, 0)).gradient_tolerance(at(v, 1)).with_intercept(cnt(v, 2) == 0),
         read: None,
         data: |cx: &Ctx| DatasetBase::new(data::blobs(cx.seed, 10, 2), data::class_targets(10, 2)),
         same: eqd);
 
     run_fit!(multi_logistic, linfa_logistic::error::Error,
         base: |_: &[f64]| MultiLogisticRegression::<f64>::new().max_iterations(30),
-        set: |b: MultiLogisticRegression<f64>, v: &[f64]| b.alpha(at(v, 0)).gradient_tolerance(at(v, 1)),
+        set: |b: MultiLogisticRegression<f64>, v: &[f64]| b.alpha(at(v, 0)).gradient_tolerance(at(v, 1)).with_intercept(cnt(v, 2) == 0),
         read: None,
         data: |cx: &Ctx| DatasetBase::new(data::blobs(cx.seed, 12, 2), data::class_targets(12, 3)),
         same: eqd);
 
     run_fit!(tweedie, LinearError<f64>,
         base: |_: &[f64]| TweedieRegressor::<f64>::params().max_iter(30),
-        set: |b: TweedieRegressorParams<f64>, v: &[f64]| b.alpha(at(v, 0)).power(at(v, 1)),
+        set: |b: TweedieRegressorParams<f64>, v: &[f64]| {
+            let b = b.alpha(at(v, 0)).power(at(v, 1)).fit_intercept(cnt(v, 3) == 0);
+            match cnt(v, 2) {
+                0 => b,
+                1 => b.link(linfa_linear::Link::Identity),
+                2 => b.link(linfa_linear::Link::Log),
+                _ => b.link(linfa_linear::Link::Logit),
+            }
+        },
         read: Some(&|c| vec![c.alpha(), c.power()]),
         data: |cx: &Ctx| {
             let x = data::blobs(cx.seed, 10, 2);
@@ -381,6 +424,10 @@ mod svm {
             // "minstep should be positive" / "sigma should be positive" while 0 is accepted: ambiguous at 0
             p("platt_minstep", GeAmb(0.0), 1e-10, &[1e-6], (TINY, 1e-3)),
             p("platt_sigma", GeAmb(0.0), 1e-12, &[1e-6], (1e-14, 1e-3)),
+            // 0 linear (default), 1 gaussian(2.0), 2 polynomial(1, 2)
+            opt("kernel", 3, 2.0),
+            // 0 off (default), 1 on; never trained with (shrinking is exercised by C13)
+            opt("shrinking", 2, 0.0),
         ]
     }
     fn with(mut head: Vec<crate::spec::ParamSpec>) -> Vec<crate::spec::ParamSpec> {
@@ -422,7 +469,15 @@ mod svm {
 
     /// solver eps and the nested Platt parameters, stored from index `i` on
     fn tail<T>(b: SvmParams<f64, T>, v: &[f64], i: usize) -> SvmParams<f64, T> {
-        b.eps(at(v, i)).with_platt_params(Platt::params().maxiter(cnt(v, i + 1)).minstep(at(v, i + 2)).sigma(at(v, i + 3)))
+        let b = b
+            .eps(at(v, i))
+            .with_platt_params(Platt::params().maxiter(cnt(v, i + 1)).minstep(at(v, i + 2)).sigma(at(v, i + 3)))
+            .shrinking(cnt(v, i + 5) == 1);
+        match cnt(v, i + 4) {
+            0 => b.linear_kernel(),
+            1 => b.gaussian_kernel(2.0),
+            _ => b.polynomial_kernel(1.0, 2.0),
+        }
     }
     fn set_c<T>(b: SvmParams<f64, T>, v: &[f64]) -> SvmParams<f64, T> {
         tail(b.pos_neg_weights(at(v, 0), at(v, 1)), v, 2)
@@ -524,7 +579,17 @@ mod misc {
     pub fn builders() -> Vec<Builder> {
         let b = |id, params, run| Builder { id, params, ctor: NONE, cross: no_cross, narrow: no_narrow, run };
         vec![
-            b("decision_tree", vec![p("min_impurity_decrease", TreeFloor, 1e-5, &[1e-3], (1e-12, 0.5))], tree),
+            b(
+                "decision_tree",
+                vec![
+                    p("min_impurity_decrease", TreeFloor, 1e-5, &[1e-3], (1e-12, 0.5)),
+                    // 0 Gini (default), 1 entropy
+                    opt("split_quality", 2, 1.0),
+                    // 0 unlimited depth (default), 1 depth 1, 2 depth 3
+                    opt("max_depth", 3, 2.0),
+                ],
+                tree,
+            ),
             b("gaussian_nb", vec![p("var_smoothing", Ge(0.0), 1e-9, &[1e-3], (0.0, 1.0))], gnb),
             b("multinomial_nb", vec![p("alpha", Ge(0.0), 1.0, &[0.3], (0.0, 10.0))], mnb),
             b(
@@ -548,9 +613,17 @@ mod misc {
                 ],
                 platt,
             ),
-            b("hierarchical_num_clusters", vec![p("num_clusters", CountGe(1), 2.0, &[3.0], (1.0, 12.0))], hier_num),
+            b(
+                "hierarchical_num_clusters",
+                vec![p("num_clusters", CountGe(1), 2.0, &[3.0], (1.0, 12.0)), opt("method", 4, 3.0)],
+                hier_num,
+            ),
             // no doc comment states the range; the code rejects negative values: 0 is left ambiguous
-            b("hierarchical_max_distance", vec![p("max_distance", GeAmb(0.0), 0.5, &[0.1, 3.0], (TINY, 100.0))], hier_dist),
+            b(
+                "hierarchical_max_distance",
+                vec![p("max_distance", GeAmb(0.0), 0.5, &[0.1, 3.0], (TINY, 100.0)), opt("method", 4, 3.0)],
+                hier_dist,
+            ),
         ]
     }
 
@@ -560,7 +633,14 @@ mod misc {
 
     run_fit!(tree, linfa::Error,
         base: |_: &[f64]| DecisionTree::<f64, usize>::params(),
-        set: |b: DecisionTreeParams<f64, usize>, v: &[f64]| b.min_impurity_decrease(at(v, 0)),
+        set: |b: DecisionTreeParams<f64, usize>, v: &[f64]| b
+            .min_impurity_decrease(at(v, 0))
+            .split_quality(if cnt(v, 1) == 0 { linfa_trees::SplitQuality::Gini } else { linfa_trees::SplitQuality::Entropy })
+            .max_depth(match cnt(v, 2) {
+                0 => None,
+                1 => Some(1),
+                _ => Some(3),
+            }),
         read: Some(&|c| vec![c.min_impurity_decrease()]),
         data: labelled,
         same: eqd);
@@ -748,11 +828,20 @@ mod misc {
             &eq,
         );
     }
+    /// 0 average (default), 1 single, 2 complete, 3 Ward
+    fn method(k: usize) -> linfa_hierarchical::Method {
+        match k {
+            0 => linfa_hierarchical::Method::Average,
+            1 => linfa_hierarchical::Method::Single,
+            2 => linfa_hierarchical::Method::Complete,
+            _ => linfa_hierarchical::Method::Ward,
+        }
+    }
     fn hier_num(cx: &Ctx, obs: &mut Obs) {
-        hier(cx, obs, &|b, v| b.num_clusters(cnt(v, 0)));
+        hier(cx, obs, &|b, v| b.num_clusters(cnt(v, 0)).with_method(method(cnt(v, 1))));
     }
     fn hier_dist(cx: &Ctx, obs: &mut Obs) {
-        hier(cx, obs, &|b, v| b.max_distance(at(v, 0)));
+        hier(cx, obs, &|b, v| b.max_distance(at(v, 0)).with_method(method(cnt(v, 1))));
     }
 }
 
@@ -771,6 +860,11 @@ mod reduction {
             // "The tolerance is should not be negative"
             p("tolerance", Ge(0.0), 1e-6, &[1e-3], (0.0, 1.0)),
             p("max_iterations", CountGe(1), 500.0, &[20.0], (1.0, 500.0)),
+            // 0 NIPALS power method (default), 1 full SVD ("max_iterations ... when algorithm='Nipals'. Ignored otherwise": the
+            // value is ignored by the SVD, the documented range and its check are not conditional)
+            opt("algorithm", 2, 1.0),
+            // 0 scale the data (default), 1 do not
+            opt("scale", 2, 1.0),
         ]
     }
 
@@ -791,7 +885,15 @@ mod reduction {
             b("pls_canonical", pls_params(), pls_canonical),
             b("pls_cca", pls_params(), pls_cca),
             // "tolerance should be positive" while 0 is accepted: ambiguous at 0
-            b("fast_ica", vec![p("tol", GeAmb(0.0), 1e-4, &[1e-2], (1e-8, 1.0))], ica),
+            b(
+                "fast_ica",
+                vec![
+                    p("tol", GeAmb(0.0), 1e-4, &[1e-2], (1e-8, 1.0)),
+                    // 0 logcosh(1.0) (default), 1 exp, 2 cube, 3 logcosh(1.5)
+                    opt("gfunc", 4, 3.0),
+                ],
+                ica,
+            ),
             b(
                 "diffusion_map",
                 vec![
@@ -843,7 +945,12 @@ mod reduction {
                 let y = ndarray::stack![ndarray::Axis(1), y1, y2];
                 let ds = DatasetBase::new(x, y);
                 let base = |_: &[f64]| $ty::<f64>::params(2);
-                let set = |b: paste_ty!($ty), v: &[f64]| b.tolerance(at(v, 0)).max_iterations(cnt(v, 1));
+                let set = |b: paste_ty!($ty), v: &[f64]| {
+                    b.tolerance(at(v, 0))
+                        .max_iterations(cnt(v, 1))
+                        .algorithm(if cnt(v, 2) == 0 { linfa_pls::Algorithm::Nipals } else { linfa_pls::Algorithm::Svd })
+                        .scale(cnt(v, 3) == 0)
+                };
                 // no Clone on these builders: the "clone" variant degenerates to the same builder
                 let g = Glue { cx, stale: None, first_set: None, base: &base, set: &set, clone: None, touch: &|b| ignore(|| -> Result<_, PlsError> { b.fit(&ds) }) };
                 let Some((v, hb)) = guard_core(obs, &g, None, None, None) else {
@@ -864,7 +971,12 @@ mod reduction {
 
     run_fit!(ica, linfa_ica::error::FastIcaError,
         base: |_: &[f64]| FastIca::<f64>::params().max_iter(30),
-        set: |b: FastIcaParams<f64>, v: &[f64]| b.tol(at(v, 0)).random_state(7),
+        set: |b: FastIcaParams<f64>, v: &[f64]| b.tol(at(v, 0)).random_state(7).gfunc(match cnt(v, 1) {
+            0 => linfa_ica::fast_ica::GFunc::Logcosh(1.0),
+            1 => linfa_ica::fast_ica::GFunc::Exp,
+            2 => linfa_ica::fast_ica::GFunc::Cube,
+            _ => linfa_ica::fast_ica::GFunc::Logcosh(1.5),
+        }),
         read: Some(&|c| vec![c.tol()]),
         data: |cx: &Ctx| DatasetBase::from(data::blobs(cx.seed, 16, 2)),
         same: eqd);
@@ -954,7 +1066,7 @@ mod text {
 
     fn cross(v: &[f64]) -> Expect {
         // "`min_n` should not be greater than `max_n`", "`min_freq` should not be greater than `max_freq`"
-        if v.len() == 5 && v[0] <= v[1] && v[2] <= v[3] {
+        if v.len() == 7 && v[0] <= v[1] && v[2] <= v[3] {
             Expect::In
         } else {
             Expect::Out
@@ -972,6 +1084,10 @@ mod text {
                 p32("max_document_frequency", Closed(0.0, 1.0), 1.0, &[0.75], (0.5, 1.0)),
                 // 0 default regex, 1 another valid regex, 2 the invalid regex "[", 3 function tokenizer
                 p("tokenizer", Category { n: 4, bad: 2 }, 0.0, &[], (0.0, 3.0)),
+                // 0 lowercase (default), 1 keep case
+                opt("convert_to_lowercase", 2, 1.0),
+                // 0 NFKD normalisation (default), 1 none
+                opt("normalize", 2, 1.0),
             ],
             ctor: NONE,
             cross,
@@ -985,7 +1101,11 @@ mod text {
     }
 
     fn set(b: CountVectorizerParams, v: &[f64]) -> CountVectorizerParams {
-        let b = b.n_gram_range(cnt(v, 0), cnt(v, 1)).document_frequency(at(v, 2) as f32, at(v, 3) as f32);
+        let b = b
+            .n_gram_range(cnt(v, 0), cnt(v, 1))
+            .document_frequency(at(v, 2) as f32, at(v, 3) as f32)
+            .convert_to_lowercase(cnt(v, 5) == 0)
+            .normalize(cnt(v, 6) == 0);
         match cnt(v, 4) {
             0 => b.tokenizer(Tokenizer::Regex(DEFAULT_REGEX.to_string())),
             1 => b.tokenizer(Tokenizer::Regex(OTHER_REGEX.to_string())),
@@ -998,7 +1118,7 @@ mod text {
         type P = CountVectorizerParams;
         // the three tokenizers split these documents differently
         let texts = array![
-            "one-two three a four",
+            "one-two three a Four",
             "two three four",
             "three four five b",
             "four five-six seven",
